@@ -44,18 +44,12 @@ fn fat_view(l: &Lint, doc: &Document) -> String {
     )
 }
 
-/// A token as the identity of a lint sees it: its text - except for white space, which is taken
-/// the way Harper's parser classified it (so many blanks, so many line breaks, a paragraph break).
-/// A Markdown soft break with or without a blank next to it is one and the same token to Harper,
-/// and the property speaks of surrounding *words*.
+/// A token as the identity of a lint sees it: its characters.  (The flagged text is put together
+/// from its tokens rather than cut out of the source: characters that belong to no token - the
+/// blanks around a Markdown soft break - are not part of what Harper sees, and the property
+/// speaks of surrounding *words*.)
 fn tok_repr(t: &harper_core::Token, src: &[char]) -> String {
-    use harper_core::TokenKind as K;
-    match &t.kind {
-        K::Space(n) => " ".repeat(*n),
-        K::Newline(n) => "\n".repeat(*n),
-        K::ParagraphBreak => "\n\n".to_string(),
-        _ => src[t.span.start..t.span.end.min(src.len())].iter().collect(),
-    }
+    src[t.span.start..t.span.end.min(src.len())].iter().collect()
 }
 
 pub fn identity(l: &Lint, doc: &Document) -> Identity {
